@@ -266,6 +266,19 @@ def s3(chk: Check, proj: Project, m, cls) -> None:
     newn = [s for s in stmts(f) if isinstance(s, ast.Assign) and isinstance(s.value, ast.Call) and "CacheNode" in norm(s.value.func)]
     okn = bool(newn) and bool(ins) and norm(ins[0].value) == norm(newn[0].targets[0]) and any(norm(c) == f"self._add_to_front({norm(newn[0].targets[0])})" for c in calls(f))
     chk.ob("S3", "util.cache:LRUCache.set:new-node-linked", m.loc(newn[0]) if newn else m.loc(f), okn, "the new node is stored in the dict and linked at the front")
+    if ins and isinstance(ins[0].value, ast.Name):
+        nv = ins[0].value.id
+        kp, vp = params(f)[1], params(f)[2]
+        defs = assignments(f, nv)
+        badk = []
+        for st_, v_ in defs:
+            fresh = isinstance(v_, ast.Call) and "CacheNode" in norm(v_.func) and v_.args and norm(v_.args[0]) == kp
+            rekeyed = any(isinstance(x, ast.Assign) and norm(x.targets[0]) == f"{nv}.key" and norm(x.value) == kp for x in stmts(f))
+            if not (fresh or rekeyed):
+                badk.append(st_)
+        chk.ob("S3", "util.cache:LRUCache.set:stored-node-carries-its-key", m.loc(badk[0]) if badk else m.loc(ins[0]), not badk if defs else None,
+               f"the node stored under `self.cache[{kp}]` is CacheNode({kp}, ...) on every path: eviction later deletes exactly that dict entry" if not badk else
+               f"`{short(badk[0])}` stores a node under `{kp}` whose `.key` is another key (the evicted entry's): when that node is evicted in turn, `del self.cache[<stale key>]` raises KeyError or deletes a live entry while the real victim stays forever - reached after more than 2*maxsize distinct keys (the 257th template)")
     c = _method(m, cls, "_clear", "clear")
     txt = {norm(s) for s in stmts(c)}
     okc = {"self.cache.clear()", "self.head.next = self.tail", "self.tail.prev = self.head"} <= txt
@@ -304,6 +317,17 @@ def s4(chk: Check, proj: Project) -> None:
     chk.ob("S4", "template:cached_template:key-has-qualified-class", m.loc(assignments(f, kvar)[0][0]) if kdef is not None else m.loc(f), cls_ok,
            "the key identifies the Template class by its import path" if cls_ok else f"the Template class enters the key as `{cls_part}`: two different classes with the same bare name share entries, a caller gets an instance of the wrong class")
     chk.ob("S4", "template:cached_template:key-has-engine-class", m.loc(f), eng_ok, "the key identifies the engine class by its import path")
+    # each optional key part is guarded by the presence of the very object it is derived from
+    for part in parts:
+        for st_, v_ in assignments(f, part):
+            if isinstance(v_, ast.IfExp):
+                tn = {x.id for x in ast.walk(v_.test) if isinstance(x, ast.Name)} & set(ps)
+                taken = v_.body if not (isinstance(v_.body, ast.Constant) and v_.body.value is None) else v_.orelse
+                bn = {x.id for x in ast.walk(taken) if isinstance(x, ast.Name)} & set(ps)
+                okg = not tn or not bn or bool(tn & bn)
+                chk.ob("S4", f"template:cached_template:key-part-{part}-guard", m.loc(st_), okg,
+                       f"`{part}` is derived from `{'/'.join(sorted(bn))}` whenever that is given" if okg else
+                       f"`{short(st_)}`: the part of the key derived from `{'/'.join(sorted(bn))}` is present only when `{'/'.join(sorted(tn))}` is given - with `{'/'.join(sorted(bn))}` but no `{'/'.join(sorted(tn))}` it drops out of the key and templates compiled for different `{'/'.join(sorted(bn))}` values share one entry")
     # hit returns the stored object
     retn = next((norm(r.value) for r in stmts(f) if isinstance(r, ast.Return) and isinstance(r.value, ast.Name)), "template")
     hitv = assignments(f, retn)
